@@ -1,6 +1,7 @@
 """C16 — equation numbering is a bijection that encodes exactly the declared connectivity."""
 import itertools
 
+from .. import common as C
 from .. import gen_struct as G
 from .. import layouts as L
 from .. import oracles as O
@@ -96,3 +97,15 @@ SPEC = {
 
 def run(ctx):
     core.run(ctx, SPEC)
+    # the frames that are sliced and numbered at the same time, once more under Go's race detector (supporting evidence: whether two
+    # structures numbered at the same time disturb each other's counting shows in the numbers only when the scheduler lets it)
+    import random
+    rng = random.Random(ctx.seed + 16)
+    batch = [{"Text": core.case_from_struct(G.gen_frame(rng, max_cells=2), Weight=False)["Text"], "Weight": False, "Repeat": 1, "ScratchDir": ctx.work, "Repo": C.REPO}
+             for _ in range(8)]
+    ran, report = C.dump_race("concurrent", batch)
+    ctx.coverage["race_detector_runs"] = 1 if ran else 0
+    if report:
+        ctx.violation("the race detector reports a data race while eight structures are sliced and numbered at the same time in one process: " + report[:300].replace("\n", " | "),
+                      {"how": "harness/bin/dump_race concurrent (StructureModel on eight generated frames, each in a goroutine of its own)", "report": report})
+    ctx.log("race-detector build of the harness: eight frames sliced and numbered at the same time, %s" % ("a race reported" if report else "no report" if ran else "not available"))
